@@ -753,8 +753,14 @@ def _rk(a, routine, trans_ok, two, real_alpha=False, real_beta=False):
     rej = [bad_flag('uplo', a.uplo, 'LU'),
            # the alphabet depends on the typecode, so it is a mandatory
            # reason only for matrices that have one of the two typecodes
+           # For real matrices transposition and conjugate transposition
+           # coincide (the reference d-routines accept both letters), so a
+           # call with the other letter computes the documented operation:
+           # it may be rejected (documented alphabet) but need not be.
            ('trans not in the alphabet documented for the typecode',
-            z3.Not(trans_ok(A.id, a.trans)), z3.Or(A.id == 1, A.id == 2)),
+            z3.Not(trans_ok(A.id, a.trans)), A.id == 2),
+           ("trans not in 'N','T','C'", z3.Not(isin(a.trans, 'NTC')),
+            A.id == 1),
            ("ldA < max(1,(trans=='N') ? n : k)", ldA < zmax(1, ra), nq),
            ('ldC < max(1,n)', ldC < zmax(1, n), nq)]
     rej += mat_rejects('A', A, a.offsetA, ra, ca, ldA, nq)
